@@ -75,6 +75,10 @@ mod utils;
 
 pub mod storage;
 
+/// Accessors for out-of-tree Kani harnesses; compiled only under `--cfg kani`.
+#[cfg(kani)]
+pub mod verif_hooks;
+
 #[cfg(feature = "watch")]
 pub mod watch;
 
